@@ -2,3 +2,206 @@
 From KV Require Import Bytes RustInt Range RangeProofs DecProofs CacheControl Cache Fixture Http1Write.
 From Coq Require Import ZifyBool ZifyNat ZifyN.
 Open Scope N_scope.
+Arguments N.add : simpl never. Arguments N.sub : simpl never. Arguments N.mul : simpl never.
+Arguments N.div : simpl never. Arguments N.modulo : simpl never.
+Arguments N.eqb : simpl never. Arguments N.ltb : simpl never. Arguments N.leb : simpl never.
+Arguments N.of_nat : simpl never. Arguments N.to_nat : simpl never.
+
+Ltac Zify.zify_post_hook ::= Z.div_mod_to_equations.
+
+(** ------------------------------------------------------------------------------------------
+    A. printer / strict parser round trip
+    ------------------------------------------------------------------------------------------ *)
+Lemma no_nl_app a c : no_nl (a ++ c) = no_nl a && no_nl c.
+Proof. unfold no_nl. apply forallb_app'. Qed.
+
+Lemma split_crlf_app l rest : no_nl l = true -> split_crlf (l ++ crlf ++ rest) = Some (l, rest).
+Proof.
+  induction l as [|c l IH]; intros H.
+  - reflexivity.
+  - cbn [no_nl forallb] in H. apply andb_true_iff in H as [Hc Hl].
+    change ((c :: l) ++ crlf ++ rest) with (c :: (l ++ crlf ++ rest)). cbn [split_crlf].
+    unfold is_nl in Hc. destruct (N.eqb_spec c 13) as [->|Hne]; [discriminate|].
+    cbn [andb]. fold (no_nl l) in Hl. rewrite (IH Hl). reflexivity.
+Qed.
+
+Lemma take_prefix_app p r : take_prefix p (p ++ r) = Some r.
+Proof.
+  unfold take_prefix. assert (H : starts_with p (p ++ r) = true) by (apply starts_with_app; eauto).
+  rewrite H, skipn_app_exact. reflexivity.
+Qed.
+
+Lemma status_text_digits st : 100 <= st <= 999 ->
+  exists d1 d2 d3, status_text st = [d1; d2; d3] /\ is_digit d1 = true /\ is_digit d2 = true /\ is_digit d3 = true /\
+                   (d1 - 48) * 100 + (d2 - 48) * 10 + (d3 - 48) = st.
+Proof.
+  intros H. exists (48 + st / 100), (48 + (st / 10) mod 10), (48 + st mod 10).
+  split; [reflexivity|]. unfold is_digit. repeat split; lia.
+Qed.
+
+Lemma lookup_reason_no_nl st t : forallb (fun p => no_nl (snd p)) t = true -> no_nl (lookup_reason st t) = true.
+Proof.
+  induction t as [|[k v] t IH]; intros H; cbn [lookup_reason]; [reflexivity|].
+  cbn [forallb snd] in H. apply andb_true_iff in H as [H1 H2].
+  destruct (k =? st); [assumption | apply IH; assumption].
+Qed.
+Lemma reason_no_nl st : no_nl (reason st) = true.
+Proof. apply lookup_reason_no_nl. vm_compute. reflexivity. Qed.
+
+Lemma status_line_roundtrip v st rs :
+  v = 10 \/ v = 11 -> 100 <= st <= 999 -> no_nl rs = true ->
+  parse_status_line (version_text v ++ [32] ++ status_text st ++ [32] ++ rs) = Some (v, st, rs).
+Proof.
+  intros Hv Hst Hrs.
+  destruct (status_text_digits st Hst) as (d1 & d2 & d3 & E & H1 & H2 & H3 & Hval).
+  rewrite E. unfold parse_status_line.
+  assert (Hnl : no_nl (version_text v ++ [32] ++ [d1; d2; d3] ++ [32] ++ rs) = true).
+  { rewrite !no_nl_app, Hrs.
+    assert (Hd : forall d, is_digit d = true -> negb (is_nl d) = true).
+    { intros d Hd. unfold is_digit in Hd. unfold is_nl. lia. }
+    cbn [no_nl forallb]. rewrite (Hd _ H1), (Hd _ H2), (Hd _ H3).
+    destruct Hv as [-> | ->]; reflexivity. }
+  rewrite Hnl. cbn [negb].
+  destruct Hv as [-> | ->].
+  - change (version_text 10 ++ [32] ++ [d1; d2; d3] ++ [32] ++ rs)
+      with (B "HTTP/1.0 " ++ (d1 :: d2 :: d3 :: 32 :: rs)).
+    assert (Hno : take_prefix (B "HTTP/1.1 ") (B "HTTP/1.0 " ++ d1 :: d2 :: d3 :: 32 :: rs) = None) by reflexivity.
+    rewrite Hno, take_prefix_app, H1, H2, H3. cbn [andb].
+    change (32 =? 32) with true. cbn [andb]. rewrite Hval.
+    destruct (N.leb_spec 100 st); [reflexivity | lia].
+  - change (version_text 11 ++ [32] ++ [d1; d2; d3] ++ [32] ++ rs)
+      with (B "HTTP/1.1 " ++ (d1 :: d2 :: d3 :: 32 :: rs)).
+    rewrite take_prefix_app, H1, H2, H3. cbn [andb].
+    change (32 =? 32) with true. cbn [andb]. rewrite Hval.
+    destruct (N.leb_spec 100 st); [reflexivity | lia].
+Qed.
+
+Lemma tchar_not_colon c : is_tchar c = true -> (c =? 58) = false.
+Proof.
+  intros H. destruct (N.eqb_spec c 58) as [->|]; [|reflexivity]. vm_compute in H. discriminate.
+Qed.
+Lemma tchar_not_nl c : is_tchar c = true -> negb (is_nl c) = true.
+Proof.
+  intros H. unfold is_nl.
+  destruct (N.eqb_spec c 13) as [->|]; [vm_compute in H; discriminate|].
+  destruct (N.eqb_spec c 10) as [->|]; [vm_compute in H; discriminate|]. reflexivity.
+Qed.
+Lemma value_byte_not_nl c : value_byte c = true -> negb (is_nl c) = true.
+Proof. unfold value_byte, is_nl. lia. Qed.
+
+Lemma forallb_impl {A} (f g : A -> bool) l : (forall x, f x = true -> g x = true) -> forallb f l = true -> forallb g l = true.
+Proof.
+  intros Hfg. induction l as [|x l IH]; cbn [forallb]; [reflexivity|].
+  intros H. apply andb_true_iff in H as [H1 H2]. rewrite (Hfg _ H1), (IH H2). reflexivity.
+Qed.
+
+Lemma split_colon_app n v : forallb is_tchar n = true -> split_colon (n ++ 58 :: v) = Some (n, v).
+Proof.
+  induction n as [|c n IH]; intros H.
+  - reflexivity.
+  - cbn [forallb] in H. apply andb_true_iff in H as [Hc Hn].
+    change ((c :: n) ++ 58 :: v) with (c :: (n ++ 58 :: v)). cbn [split_colon].
+    rewrite (tchar_not_colon _ Hc), (IH Hn). reflexivity.
+Qed.
+
+Definition header_text (h : bytes * bytes) : bytes := fst h ++ [58; 32] ++ snd h.
+Lemma print_header_text h : print_header h = header_text h ++ crlf.
+Proof. unfold print_header, header_text. rewrite <- !app_assoc. reflexivity. Qed.
+
+Lemma header_line_roundtrip h : hdr_ok h = true -> parse_header_line (header_text h) = Some h.
+Proof.
+  destruct h as [n v]. unfold hdr_ok, header_text. cbn [fst snd]. intros H.
+  apply andb_true_iff in H as [Hn Hv]. unfold parse_header_line.
+  pose proof Hn as Hn'. unfold name_ok in Hn'. apply andb_true_iff in Hn' as [_ Ht].
+  change (n ++ [58; 32] ++ v) with (n ++ 58 :: (32 :: v)).
+  rewrite (split_colon_app _ _ Ht). change (32 =? 32) with true. rewrite Hn, Hv. reflexivity.
+Qed.
+
+Lemma header_text_no_nl h : hdr_ok h = true -> no_nl (header_text h) = true.
+Proof.
+  destruct h as [n v]. unfold hdr_ok, header_text. cbn [fst snd]. intros H.
+  apply andb_true_iff in H as [Hn Hv]. unfold name_ok in Hn. apply andb_true_iff in Hn as [_ Ht].
+  rewrite !no_nl_app. unfold no_nl at 1.
+  rewrite (forallb_impl _ _ _ tchar_not_nl Ht). unfold no_nl at 2.
+  unfold value_ok in Hv. rewrite (forallb_impl _ _ _ value_byte_not_nl Hv). reflexivity.
+Qed.
+
+Lemma header_text_nonempty h : hdr_ok h = true -> exists c l, header_text h = c :: l.
+Proof.
+  destruct h as [n v]. unfold hdr_ok, header_text, name_ok. cbn [fst snd]. intros H.
+  destruct n as [|c n]; [discriminate|]. eexists _, _. reflexivity.
+Qed.
+
+Lemma header_block_roundtrip hs : forall fuel rest,
+  Forall (fun h => hdr_ok h = true) hs -> (length hs < fuel)%nat ->
+  parse_header_block fuel (print_headers hs ++ crlf ++ rest) = Some (hs, rest).
+Proof.
+  induction hs as [|h hs IH]; intros fuel rest Hok Hf.
+  - destruct fuel as [|f]; [cbn in Hf; lia|]. reflexivity.
+  - destruct fuel as [|f]; [cbn in Hf; lia|].
+    inversion Hok as [|? ? Hh Hrest]; subst.
+    unfold print_headers. cbn [map concat]. fold (print_headers hs).
+    rewrite print_header_text, <- !app_assoc. cbn [parse_header_block].
+    rewrite (split_crlf_app _ _ (header_text_no_nl _ Hh)).
+    destruct (header_text_nonempty _ Hh) as (c & l & E). rewrite E. rewrite <- E.
+    rewrite (header_line_roundtrip _ Hh).
+    rewrite (IH f rest Hrest); [reflexivity | cbn [length] in Hf; lia].
+Qed.
+
+Lemma print_headers_length hs : (length hs <= length (print_headers hs))%nat.
+Proof.
+  induction hs as [|h hs IH]; [cbn; lia|].
+  unfold print_headers. cbn [map concat]. fold (print_headers hs).
+  rewrite app_length. unfold print_header. rewrite !app_length. cbn [length]. lia.
+Qed.
+
+(** well-formedness of what is written for one request of method [m] *)
+Definition names_lower (hs : list (bytes * bytes)) : Prop := Forall (fun h => lower (fst h) = fst h) hs.
+Definition head_ok (h : head) : Prop :=
+  (hd_version h = 10 \/ hd_version h = 11) /\ 100 <= hd_status h <= 999 /\
+  Forall (fun x => hdr_ok x = true) (hd_headers h) /\
+  existsb (is_name s_transfer_encoding) (hd_headers h) = false.
+Definition framed (m : N) (s : sent) : Prop :=
+  head_ok (st_head s) /\
+  if is_head_method m || bodyless_status (hd_status (st_head s))
+  then st_body s = [] /\ announced_ok_bodyless (hd_headers (st_head s)) = true
+  else announced (hd_headers (st_head s)) = Some (N.of_nat (length (st_body s))).
+
+Lemma parse_one_wire m s rest : framed m s -> parse_one m (wire s ++ rest) = Some (observable s, rest).
+Proof.
+  intros [(Hv & Hst & Hhs & Hte) Hb]. destruct s as [[v st hs] body]. cbn [st_head st_body hd_version hd_status hd_headers] in *.
+  unfold wire, print_response, print_head, observable. cbn [st_head st_body hd_version hd_status hd_headers].
+  set (line := version_text v ++ [32] ++ status_text st ++ [32] ++ reason st).
+  replace ((version_text v ++ [32] ++ status_text st ++ [32] ++ reason st ++ crlf ++ print_headers hs ++ crlf) ++ body)
+    with (line ++ crlf ++ (print_headers hs ++ crlf ++ body)) by (unfold line; rewrite <- !app_assoc; reflexivity).
+  rewrite <- !app_assoc.
+  unfold parse_one.
+  assert (Hline : no_nl line = true).
+  { unfold line. rewrite !no_nl_app, reason_no_nl.
+    destruct (status_text_digits st Hst) as (d1 & d2 & d3 & E & H1 & H2 & H3 & _). rewrite E.
+    assert (Hd : forall d, is_digit d = true -> negb (is_nl d) = true).
+    { intros d Hd. unfold is_digit in Hd. unfold is_nl. lia. }
+    cbn [no_nl forallb]. rewrite (Hd _ H1), (Hd _ H2), (Hd _ H3).
+    destruct Hv as [-> | ->]; reflexivity. }
+  rewrite (split_crlf_app _ _ Hline).
+  unfold line. rewrite (status_line_roundtrip v st (reason st) Hv Hst (reason_no_nl st)).
+  rewrite header_block_roundtrip; [|assumption|].
+  2:{ rewrite !app_length. pose proof (print_headers_length hs). lia. }
+  rewrite Hte.
+  destruct (is_head_method m || bodyless_status st).
+  - destruct Hb as [-> Ha]. rewrite Ha. reflexivity.
+  - rewrite Hb.
+    destruct (N.ltb_spec (N.of_nat (length (body ++ rest))) (N.of_nat (length body))) as [Hlt|_].
+    { rewrite app_length in Hlt. lia. }
+    rewrite Nat2N.id, firstn_app_exact, skipn_app_exact. reflexivity.
+Qed.
+
+Lemma framing_roundtrip_lemma (l : list (N * sent)) :
+  Forall (fun p => framed (fst p) (snd p)) l ->
+  parse_responses (map fst l) (concat (map (fun p => wire (snd p)) l)) = Some (map (fun p => observable (snd p)) l).
+Proof.
+  induction l as [|[m s] l IH]; intros H.
+  - reflexivity.
+  - inversion H as [|? ? Hp Hl]; subst. cbn [map concat fst snd parse_responses].
+    rewrite (parse_one_wire m s _ Hp). rewrite (IH Hl). reflexivity.
+Qed.
